@@ -99,6 +99,8 @@ def _(c):
     main.step('forall(lambda m, s: implies((m < head(current_index) or m >= current_index), c_results[m, s] == head(c_results[m, s])))',
               label='earlier-rows-frozen')
     main.step('current_index == num_timepoints or c_timepoints[current_index] > current_time', label='all-due-rows-recorded')
+    # dt rules fire on the next pass only after a step that arrived at a grid time (not after a reaction, not after a queue delivery)
+    main.step('rule_step == ite(move_to_queued_time == 0 and reaction_fired == 0, 1, 0)', label='rule-step-flag')
     # ---- inner loops
     rec = c.loop(1)
     rec.invariant('entry(current_index, 1) <= current_index and current_index <= num_timepoints', label='index')
